@@ -15,6 +15,7 @@ import CfavmlModel.Gen.Kernels
 import CfavmlModel.Hand.ThreadPool
 import CfavmlModel.Hand.AlignedBuffer
 import CfavmlModel.Hand.AlignedBufferState
+import CfavmlModel.Hand.ModelReg
 import CfavmlModel.Hand.TransposeGlue
 import CfavmlModel.Spec.Wrappers
 import CfavmlModel.Spec.Dispatch
@@ -273,6 +274,54 @@ def decodeEnv (t : String) : Option (Option String) :=
 def parseArgs (w n : Nat) (ts : List String) : Option (List (Arg w n)) :=
   ts.foldr (fun t acc => do let a ← parseArg w n t; let r ← acc; pure (a :: r)) (some [])
 
+/-- `kernL <L> <ty> <kernel> <dims> <args>`: a generated kernel on the reference backend with `L` lanes per register
+(`Hand.modelReg`), integer element types only (`StdMath`) -/
+def runKernelL {w : Nat} (E : Env) (L : Nat) (S : ScalarSpec (BitVec w)) (M : Math (BitVec w))
+    (kernel : String) (dims : Nat) (args : List (Arg w 1)) : String :=
+  let R := Hand.modelReg L S
+  match kernel, args with
+  | "generic_sum", [.mem a] => outVal (generic_sum E R M dims a)
+  | "generic_squared_norm", [.mem a] => outVal (generic_squared_norm E R M dims a)
+  | "generic_max_horizontal", [.mem a] => outVal (generic_max_horizontal E R M dims a)
+  | "generic_min_horizontal", [.mem a] => outVal (generic_min_horizontal E R M dims a)
+  | "generic_dot_product", [.mem a, .mem b] => outVal (generic_dot_product E R M dims a b)
+  | "generic_cosine", [.mem a, .mem b] => outVal (generic_cosine E R M dims a b)
+  | "generic_euclidean", [.mem a, .mem b] => outVal (generic_euclidean E R M dims a b)
+  | "generic_add_vector", [.mem a, .mem b, .mem r] => outMem (generic_add_vector E R M dims a b r)
+  | "generic_sub_vector", [.mem a, .mem b, .mem r] => outMem (generic_sub_vector E R M dims a b r)
+  | "generic_mul_vector", [.mem a, .mem b, .mem r] => outMem (generic_mul_vector E R M dims a b r)
+  | "generic_div_vector", [.mem a, .mem b, .mem r] => outMem (generic_div_vector E R M dims a b r)
+  | "generic_max_vertical", [.mem a, .mem b, .mem r] => outMem (generic_max_vertical E R M dims a b r)
+  | "generic_min_vertical", [.mem a, .mem b, .mem r] => outMem (generic_min_vertical E R M dims a b r)
+  | "generic_add_value", [.val v, .mem a, .mem r] => outMem (generic_add_value E R M dims v a r)
+  | "generic_sub_value", [.val v, .mem a, .mem r] => outMem (generic_sub_value E R M dims v a r)
+  | "generic_mul_value", [.val v, .mem a, .mem r] => outMem (generic_mul_value E R M dims v a r)
+  | "generic_div_value", [.val v, .mem a, .mem r] => outMem (generic_div_value E R M dims v a r)
+  | "generic_max_value", [.val v, .mem a, .mem r] => outMem (generic_max_value E R M dims v a r)
+  | "generic_min_value", [.val v, .mem a, .mem r] => outMem (generic_min_value E R M dims v a r)
+  | _, _ => "bad-request kernel/arguments"
+
+def kernLRequest (E : Env) (lt ty kernel dims : String) (rest : List String) : String :=
+  match parseHex lt, parseHex dims with
+  | some L, some d =>
+    if L == 0 then "bad-request lane count" else
+    let go (w : Nat) (S : ScalarSpec (BitVec w)) (M : Math (BitVec w)) : String :=
+      match parseArgs w 1 rest with
+      | some args => runKernelL E L S M kernel d args
+      | none => "bad-request arguments"
+    match ty with
+    | "i8" => go 8 (sintSpec 8) (StdMath_i8 E)
+    | "i16" => go 16 (sintSpec 16) (StdMath_i16 E)
+    | "i32" => go 32 (sintSpec 32) (StdMath_i32 E)
+    | "i64" => go 64 (sintSpec 64) (StdMath_i64 E)
+    | "u8" => go 8 (uintSpec 8) (StdMath_u8 E)
+    | "u16" => go 16 (uintSpec 16) (StdMath_u16 E)
+    | "u32" => go 32 (uintSpec 32) (StdMath_u32 E)
+    | "u64" => go 64 (uintSpec 64) (StdMath_u64 E)
+    | _ => "bad-request element type"
+  | _, _ => "bad-request kernL lane count / dims"
+
+
 
 /-! ### the safe API, interpreted from the regenerated tables
 
@@ -344,6 +393,7 @@ partial def handle (E : Env) (line : String) : Env × String :=
       | none => "bad-request arguments") with
     | some out => (E, out)
     | none => (E, "bad-request unknown backend/type")
+  | "kernL" :: lt :: ty :: kernel :: dims :: rest => (E, kernLRequest E lt ty kernel dims rest)
   | "kern" :: reg :: ty :: kernel :: dims :: rest =>
     match parseHex dims with
     | none => (E, "bad-request dims")
